@@ -315,7 +315,7 @@ func atoiV(s value) (value, bool) {
 	if i == len(bs) {
 		return 0, false
 	}
-	if len(bs)-i > 18 {
+	if len(bs)-i > 60 {
 		Unsupported("Atoi of long symbolic string")
 	}
 	// decimal shortcut: the digits are a registered rendering of a term
@@ -336,8 +336,22 @@ func atoiV(s value) (value, bool) {
 	if neg {
 		acc = sym.Neg(acc)
 	}
+	if len(bs)-i > 18 {
+		// may not fit: strconv saturates and reports a range error (the caller sees atoiRange)
+		if cx.Branch(sym.Gt(acc, sym.IntBig(kindHi[types.Int64]))) {
+			atoiRange = true
+			return concInt(types.Int, kindHi[types.Int64]), true
+		}
+		if cx.Branch(sym.Lt(acc, sym.IntBig(kindLo[types.Int64]))) {
+			atoiRange = true
+			return concInt(types.Int, kindLo[types.Int64]), true
+		}
+	}
 	return mkSymInt(acc, types.Int), true
 }
+
+// atoiRange is set by atoiV when the digits do not fit into an int64 (value saturated).
+var atoiRange bool
 
 // itoaV renders an integer value in decimal.
 func itoaV(x value) value {
@@ -488,9 +502,14 @@ func init() {
 		return &v
 	})
 	reg("strconv.Atoi", func(fr *frame, a []value) value {
+		atoiRange = false
 		n, ok := atoiV(a[0])
 		if !ok {
 			return tuple{0, mkError(strConcat(strConcat("strconv.Atoi: parsing \"", a[0]), "\": invalid syntax"))}
+		}
+		if atoiRange {
+			atoiRange = false
+			return tuple{n, mkError(strConcat(strConcat("strconv.Atoi: parsing \"", a[0]), "\": value out of range"))}
 		}
 		return tuple{n, nilError()}
 	})
